@@ -50,11 +50,27 @@ func runE2E(c *core.Ctx) {
 				continue
 			}
 			args := append([]string{"--max-cpu", fmt.Sprint(cpu), "--batch-size", fmt.Sprint(bs), "--no-progressbar"}, spec.args...)
+			// one run in two writes to -o FILE, where FILE exists already and holds more records (the
+			// result of an earlier, less selective run): the file must hold the output and nothing else
+			toFile := (cpu+bs)%2 == 0
+			outPath := filepath.Join(c.Dir, fmt.Sprintf("e2e-%d.out.fasta", c.Idx))
+			if toFile {
+				var stale strings.Builder
+				for i := 0; i < n+40; i++ {
+					fmt.Fprintf(&stale, ">stale_%d {\"k\":0}\nacgtacgtacgtacgtacgtacgt\n", i)
+				}
+				os.WriteFile(outPath, []byte(stale.String()), 0o644)
+				args = append(args, "-o", outPath)
+			}
 			args = append(args, in)
 			res := cmdx.Run(filepath.Join(c.BinDir, spec.name), args, cmdx.Opt{Env: []string{fmt.Sprintf("OBIVERIF_YIELD=%d:200:300", c.Idx*100+cpu)}})
+			if toFile {
+				res.Stdout, _ = os.ReadFile(outPath)
+				os.Remove(outPath)
+			}
 			c.Count("evaluations", 1)
 			c.Count("command_runs", 1)
-			det := map[string]any{"command": spec.name, "args": args, "records": n, "exit": res.Exit, "stderr": cmdx.Tail(res.Stderr, 1500)}
+			det := map[string]any{"command": spec.name, "args": args, "records": n, "exit": res.Exit, "stderr": cmdx.Tail(res.Stderr, 1500), "output_to_existing_file": toFile}
 			if res.TimedOut {
 				if res.Deadlock {
 					c.Violate("deadlock:"+spec.name, "the command never terminates (dead-lock in the goroutine dump)", det)
@@ -83,13 +99,12 @@ func runE2E(c *core.Ctx) {
 				c.Violate(d+":"+spec.name, "the command does not output exactly the selected records in input order", det)
 			}
 			if n > bs {
-				c.Key("e2e/%s/%d/%d/%d", spec.name, n, cpu, bs)
+				c.Key("e2e/%s/%d/%d/%d/%v", spec.name, n, cpu, bs, toFile)
 			}
 		}
 	}
 	c.Sample(map[string]any{"command": spec.name, "args": spec.args, "records": n, "max_cpu": cpus, "batch_size": sizes})
 }
-
 
 // runE2EFiles: several input files (some of them empty) given to one command:
 // the records of the files come out one file after the other, in order.
@@ -156,4 +171,112 @@ func runE2EFiles(c *core.Ctx) {
 		}
 	}
 	c.Sample(map[string]any{"files_record_counts": shape})
+}
+
+// runE2EDir: a directory given as input: every sequence file of the tree (real sub-directories,
+// symbolic links to directories and to files) is read exactly once; files without a sequence
+// extension are ignored.
+func runE2EDir(c *core.Ctx) {
+	root := filepath.Join(c.Dir, fmt.Sprintf("dir-%d", c.Idx))
+	in := filepath.Join(root, "in")
+	out := filepath.Join(root, "outside")
+	os.MkdirAll(filepath.Join(in, "m_sub", "deeper"), 0o755)
+	os.MkdirAll(filepath.Join(out, "linked_dir"), 0o755)
+	defer os.RemoveAll(root)
+	perFile := map[string][]string{}
+	var want []string
+	mk := func(path, tag string, n int) {
+		recs := itx.MkRecs(c.Rng, tag+"_", n)
+		var sb strings.Builder
+		for _, r := range recs {
+			fmt.Fprintf(&sb, ">%s {\"k\":%d}\n%s\n", r.ID, r.K, r.Seq)
+			perFile[tag] = append(perFile[tag], r.ID)
+			want = append(want, r.ID)
+		}
+		os.WriteFile(path, []byte(sb.String()), 0o644)
+	}
+	n := func() int { return []int{1, 2, 5, 40}[c.Rng.Intn(4)] }
+	// names chosen so that links sort before, between and after plain files
+	mk(filepath.Join(in, "a_first.fasta"), "afirst", n())
+	mk(filepath.Join(out, "linked_dir", "x_in_linked_dir.fasta"), "linkeddir", n())
+	mk(filepath.Join(in, "m_sub", "s_in_sub.fasta"), "sub", n())
+	mk(filepath.Join(in, "m_sub", "deeper", "d_deeper.fasta"), "deeper", n())
+	mk(filepath.Join(out, "target_of_link.fasta"), "linkedfile", n())
+	mk(filepath.Join(in, "z_last.fasta"), "zlast", n())
+	os.WriteFile(filepath.Join(in, "notes.txt"), []byte(">not_a_sequence_file\nacgt\n"), 0o644)
+	linkDirName := []string{"0_link_dir", "k_link_dir", "zz_link_dir"}[c.Idx%3]
+	linkFileName := []string{"b_link.fasta", "y_link.fasta"}[(c.Idx/3)%2]
+	if err := os.Symlink(filepath.Join(out, "linked_dir"), filepath.Join(in, linkDirName)); err != nil {
+		c.Inconclusive("cannot create symbolic links here")
+		return
+	}
+	os.Symlink(filepath.Join(out, "target_of_link.fasta"), filepath.Join(in, linkFileName))
+	for _, cfg := range [][2]int{{1, 100}, {4, 3}, {16, 1}} {
+		args := []string{"--no-progressbar", "--max-cpu", fmt.Sprint(cfg[0]), "--batch-size", fmt.Sprint(cfg[1]), in}
+		res := cmdx.Run(filepath.Join(c.BinDir, "obiconvert"), args, cmdx.Opt{})
+		c.Count("evaluations", 1)
+		c.Count("command_runs", 1)
+		det := map[string]any{"link_to_directory": linkDirName, "link_to_file": linkFileName, "files": perFile, "config": cfg, "exit": res.Exit, "stderr": cmdx.Diag(res.Stderr, 1500)}
+		if res.TimedOut {
+			if res.Deadlock {
+				c.Violate("dir:deadlock", "obiconvert on a directory never terminates", det)
+			} else {
+				c.Inconclusive("watchdog on obiconvert (directory)")
+			}
+			continue
+		}
+		if res.Exit != 0 {
+			c.Violate("dir:exit", "obiconvert fails on a directory of well-formed files", det)
+			continue
+		}
+		got, err := gen.ParseFasta(res.Stdout)
+		if err != nil {
+			c.Violate("dir:output-unparsable", "the output is not FASTA", det)
+			continue
+		}
+		c.Key("dir/%s/%s/%v", linkDirName, linkFileName, cfg)
+		ids := gen.IDsOf(got)
+		seen := map[string]int{}
+		for _, id := range ids {
+			seen[id]++
+		}
+		lost, dup, extra := 0, 0, 0
+		for _, w := range want {
+			switch {
+			case seen[w] == 0:
+				lost++
+			case seen[w] > 1:
+				dup++
+			}
+		}
+		if len(ids) > len(want)+dup {
+			extra = len(ids) - len(want)
+		}
+		if lost+dup+extra > 0 {
+			det["lost"], det["duplicated"], det["extra"], det["got_ids"] = lost, dup, extra, ids
+			cause := "dir:lost"
+			if lost == 0 && dup > 0 {
+				cause = "dir:duplicated"
+			} else if lost == 0 {
+				cause = "dir:extra"
+			}
+			c.Violate(cause, "the sequence files of an input directory (sub-directories and symbolic links included) are not all read exactly once", det)
+			continue
+		}
+		// inside a file the order of the records is kept
+		pos := map[string]int{}
+		for i, id := range ids {
+			pos[id] = i
+		}
+		for tag, l := range perFile {
+			for i := 1; i < len(l); i++ {
+				if pos[l[i]] < pos[l[i-1]] {
+					det["file"] = tag
+					c.Violate("dir:order-inside-file", "the records of one file of the directory come out in another order", det)
+					break
+				}
+			}
+		}
+	}
+	c.Sample(map[string]any{"link_to_directory": linkDirName, "link_to_file": linkFileName, "files": len(perFile)})
 }
